@@ -247,7 +247,8 @@ PROPS["C01"] = dict(
                " Added after the statement audit (DESIGN 5b): schedules with an arbitrary cleaner function at every cleaner run (grun), creation base, first-occurrence order, re-read only after Rollback.",
     level_note=_BUF_NOTE,
     stages=[corr_stage("BUFK1", 4000, 8000, feature=feat_buf("C01"), seeds=3),
-            corr_stage("C01BIG", 6, 60, validate=False)],
+            corr_stage("C01BIG", 6, 60, validate=False),
+            corr_stage("C01CTXPUT", 60, 600, validate=False)],
 )
 PROPS["C02"] = dict(
     rule="BUFK1 (see C01) including bigbuff.Range and Buffer.Range with scripted callbacks (continue/stop/panic); non-trivial = history with a "
@@ -285,7 +286,9 @@ PROPS["C04"] = dict(
             corr_stage("C04TRACE", 150, 1500, params=c04_trace_params, instrument=True,
                        feature=lambda tok: " ".join(tok[3:40]) if tok[0] == "F" else None),
             corr_stage("C04T", 2, 6, feature=lambda tok: tok[2] if (tok[0] == "K2" and "-p" in tok[2]) else None, instrument=True, shards=12,
-                       params={"points": 12}, tparams={"points": 1000}, timeout=1200)],
+                       params={"points": 12}, tparams={"points": 1000}, timeout=1200),
+            corr_stage("C04HUGE", 8, 40, validate=False),
+            corr_stage("C04GOEXIT", 60, 600, validate=False)],
 )
 def c05_trace_params(exe):
     """ids of the six synchronisation points of WaitCond (sync.go), found by WHAT THEY DO in the instrumenter's table (not by
@@ -322,7 +325,8 @@ PROPS["C05"] = dict(
     stages=[corr_stage("C05TRACE", 400, 4000, params=c05_trace_params, instrument=True,
                        feature=lambda tok: " ".join(tok[3:40]) if tok[0] == "F" else None),
             corr_stage("C05S", 6, 12, feature=feat_buf("C05"), instrument=True, shards=4, tparams={"points": 1000}),
-            corr_stage("BUFK1", 2000, 5000, feature=feat_buf("C05"), params={"salt": 5})],
+            corr_stage("BUFK1", 2000, 5000, feature=feat_buf("C05"), params={"salt": 5}),
+            corr_stage("C05CAUSE", 60, 600, validate=False)],
 )
 PROPS["C12"] = dict(
     rule="C12LEAK: Buffer with 1-3 consumers, reads/commits/rollbacks, parked Gets, shut down in 4 orders (consumers first, buffer first, context "
@@ -341,7 +345,8 @@ PROPS["C12"] = dict(
             corr_stage("C13K1", 600, 4000, feature=lambda tok: (" ".join(tok[3:]) if (" ; 5 ; " in " ".join(tok) or " ; 6 ; " in " ".join(tok)) else None),
                        params={"closebias": 1}),
             corr_stage("C12S", 5, 10, instrument=True, shards=4, tparams={"points": 1000}),
-            corr_stage("C12FROZEN", 9, 60, validate=False)],
+            corr_stage("C12FROZEN", 9, 60, validate=False),
+            corr_stage("C12PRECANCEL", 160, 1600, validate=False)],
 )
 PROPS["C13"] = dict(
     level_text="Theorems (Properties/C13.v): for every operation sequence the implementation-level Channel model (buffer + rollback counter as coded) "
@@ -357,7 +362,9 @@ PROPS["C13"] = dict(
          " C13WIN: the parent context is cancelled while a Get is inside its critical section (a hook context whose Err(), only ever called under the Channel mutex, cancels the parent and watches Done): Done must not close before the take.",
     stages=[corr_stage("C13K1", 2500, 6000, feature=feat_c13, seeds=3),
             corr_stage("C13K2", 1500, 4000, feature=feat_c13, seeds=3),
-            corr_stage("C13WIN", 40, 300, validate=False)],
+            corr_stage("C13WIN", 40, 300, validate=False),
+            corr_stage("C13BIG", 24, 240, validate=False),
+            corr_stage("C13ALIAS", 200, 2000, validate=False)],
 )
 PROPS["C03"] = dict(
     pre_coq=[lambda: c03_pre_coq()],
@@ -575,7 +582,8 @@ PROPS["C18"] = dict(
          " A quarter of the base errors are NON-fatal errors whose Unwrap chain contains a fatal error (plain errors for the loop; returned unchanged when wrapped by FatalError).",
     stages=[corr_stage("C18K1", 6000, 6000, feature=feat_c18, seeds=3),
             corr_stage("C18F", 30, 60, params=None, feature=feat_c18),
-            corr_stage("C18ERRS", 3000, 20000, validate=False)],
+            corr_stage("C18ERRS", 3000, 20000, validate=False),
+            corr_stage("C18DEADLINE", 120, 600, validate=False)],
 )
 
 
@@ -906,7 +914,8 @@ PROPS["C15"] = dict(
             corr_stage("C15K1", 2500, 6000, feature=feat_c15, seeds=3),
             corr_stage("C15REG", 2500, 5000, feature=feat_c15, seeds=2),
             corr_stage("C15K2", 100, 800, validate=False, seeds=2),
-            corr_stage("C15UNSUB", 300, 1500, validate=False, seeds=2)],
+            corr_stage("C15UNSUB", 300, 1500, validate=False, seeds=2),
+            corr_stage("C15TYPES", 7400, 74000, validate=False)],
 )
 
 
